@@ -27,6 +27,7 @@ case "$kind" in
       printf '(%s)\n' "$ids"
     fi
     [ "$kind" = unsaterr ] && exit 1;;
+  unsatnocore) printf 'unsat\n()\n';;
   unknown) printf 'unknown\n';;
   timeout) sleep "$(cat "$dir/timeout.sleep" 2>/dev/null || echo 3)"; printf 'unsat\n';;
   garbage) printf 'Segmentation fault (core dumped) lol\n';;
